@@ -29,6 +29,14 @@ Lemma sign_skeletons :
   skel_bls_checkBLSHasher = [Guard "hasher == nil"; Guard "hasher.Size() != expandMsgOutput"]%string.
 Proof. repeat split; reflexivity. Qed.
 
+(* numbers of return statements (tripwire for added or removed early exits) *)
+Lemma return_counts_bls :
+  (nret_bls_pubKeyBLSBLS12381_Verify, nret_bls_prKeyBLSBLS12381_Sign, nret_bls_blsBLS12381Algo_decodePublicKey,
+   nret_bls_blsBLS12381Algo_decodePrivateKey, nret_bls_checkBLSHasher, nret_bls_core_bls_verify,
+   nret_bls_core_bls_verify_E1, nret_bls_core_bls_sign, nret_bls_core_bls_sign_E1)
+  = (6, 2, 4, 3, 3, 4, 2, 2, 0)%nat.
+Proof. reflexivity. Qed.
+
 Lemma sig_len_eq : Z.to_nat crypto_SignatureLenBLSBLS12381 = Z.to_nat C_G1_SER_BYTES.
 Proof. reflexivity. Qed.
 
